@@ -47,6 +47,9 @@ TEXT = {
  "C07": ("deterministic simulation with a byzantine client node driving Handler.ServeHTTP; oracle: termination, no panic, response strictly decodable by the reference codec, user code at most once with decodable messages, documented codes",
          "Seeded search over hostile requests; honest note as for C06: the byzantine peer's seeded generation decides, the simulator adds termination/hang detection, segmentation of the hostile body and panic attribution. Request envelopes carrying the response-only flags 0x02/0x80 are a don't-care zone.",
          "5 C07"),
+ "C05": ("deterministic simulation with reference peer nodes: refinement of recorded exchanges against an independent strict codec of the three protocols",
+         "Refinement against an executable reference model driven by seeded program generation; scheduling and segmentation vary but are not what the property turns on (honest note). Only table entries that are stable across every published protocol revision are asserted exactly.",
+         "5 C05"),
 }
 
 hooks_commits = subprocess.run(["git", "-C", "/repo", "log", "--format=%H", "--grep=^verif:"], capture_output=True, text=True).stdout.split()
